@@ -41,6 +41,8 @@ func init() {
 		// multi-page collections: every bulk operation at every size must give the reference result on both backends
 		eng.BulkSweep(&eng.BulkConfig{Backends: []string{drv.BBolt, drv.Badger}, Sizes: sizesUpTo(map[string]int{"quick": 64, "thorough": 300}[tier]), Pads: []int{0}, IndexSets: [][]string{{"x", "xy"}}, Ops: eng.BulkOps()},
 			run, own("state", "callback", "apply", "err", "bulk-error", "rawkeys", "count", "indexquery"))
+		// operations that fail in the middle of a scan end the same way everywhere
+		eng.ErrorPathTwins(run, []string{drv.BBolt, drv.Badger, drv.BadgerDisk}, "twin")
 		if tier == "thorough" {
 			eng.CursorSweep(run, drv.BadgerDisk, false)
 		}
